@@ -51,7 +51,7 @@ man = {
         "kind_free_text": "repository-specific static analyser in pure-stdlib Python (ast): statement CFG with exceptional edges, dominators, dataflow, resolved call graph, global-state inventory and access classification, regex-language (re._parser) and abstract string alphabets; run with /venv/bin/python; reads /repo's working tree on every run and, for a few API-contract rules, the installed Django's source (parsed, never imported)",
     }],
     "checks": checks,
-    "notes": "Every check decides structural obligations that are necessary for its property (DESIGN.md section 0) and says so in evidence; exit 0 held / 1 VIOLATION / 2 ANALYSIS-ERROR (undecided, never a false alarm). Known findings (F6b C06, F33 C08, F34 C05, F41/F42 C03, F44 C10; 47 repaired findings with their fix commits): /verif/known_findings.json. Seeded breaking changes (342 confirmed, seven rounds), their blind and current outcomes: /verif/seeded/RESULTS.md and DESIGN.md section 8.4. Thorough tier = quick + informational self-test / regression replay / rename fuzz / refactor fuzz of the checker (DESIGN.md section 8.5).",
+    "notes": "Every check decides structural obligations that are necessary for its property (DESIGN.md section 0) and says so in evidence; exit 0 held / 1 VIOLATION / 2 ANALYSIS-ERROR (undecided, never a false alarm). Known findings (F6b C06, F33 C08, F34 C05, F41/F42 C03, F44 C10; 48 repaired findings with their fix commits): /verif/known_findings.json. Seeded breaking changes (342 confirmed, seven rounds), their blind and current outcomes: /verif/seeded/RESULTS.md and DESIGN.md section 8.4. Thorough tier = quick + informational self-test / regression replay / rename fuzz / refactor fuzz of the checker (DESIGN.md section 8.5).",
     "not_applicable": NOT_APPLICABLE,
 }
 json.dump(man, open(os.path.join(os.path.dirname(os.path.abspath(__file__)), "MANIFEST.json"), "w"), indent=1)
